@@ -274,7 +274,7 @@ def rules(rep, m):
             bg.append(cap - st["old"])
             # with the region's running imbalance b = d(in_use) - d(sum of holdings):  in_use - b = sum of the
             # holdings as they are recorded now, which is >= 0 and >= any one of them
-            bal_now = st.get("vals", {}).get("ghost:bal") or Aff.const(0)
+            bal_now = (st.get("vals", {}).get("ghost:bal") or Aff.const(0)) - (st["new"] - st["old"])
             bg.append(st["old"] - bal_now)
             for k_, v_ in st.get("vals", {}).items():
                 if str(k_).startswith("rec["):
